@@ -46,8 +46,33 @@ def coords : IO Unit := do
       let m := lonRegion w e
       IO.println s!"lonRegion {ratS w} {ratS e} | {g.1} {ratS g.2.1} {ratS g.2.2} | {m.1} {ratS m.2.1} {ratS m.2.2}"
 
+def okS (x : Except Err Unit) : String := match x with | .ok _ => "ok" | .error _ => "err"
+
+def coords2 : IO Unit := do
+  let lattice : List Rat := (List.range 37).map (fun (k : Nat) => (((k : Int) * 15 - 180 : Int) : Rat))
+  for i in [true, false] do
+    for l in lattice ++ [1/2, -359/2, 719/2] do
+      IO.println s!"lonPoint {i} {ratS l} | {ratS (Gen.lonPoint i l)} | {ratS (lonPoint i l)}"
+  for (w, e, s, n) in [((0 : Rat), (1 : Rat), (0 : Rat), (1 : Rat)), (1, 0, 0, 1), (0, 1, 1, 0), (2, 2, 3, 3), (-5, -4, -3, -2), (1, 0, 1, 0), (0, 0, 1, 1/2)] do
+    let m := okS ((checkRegion [w, e, s, n]).map fun _ => ())
+    IO.println s!"checkRegion4 {ratS w} {ratS e} {ratS s} {ratS n} | {okS (Gen.checkRegion4 w e s n)} | {m}"
+  for w in [(-181 : Rat), -180, 0, 360, 361] do
+    for e in [(-181 : Rat), -180, 0, 180, 360, 361] do
+      for (s, n) in [((-90 : Rat), (90 : Rat)), (-91, 0), (0, 91), (10, 20)] do
+        IO.println s!"checkGeoRegion {ratS w} {ratS e} {ratS s} {ratS n} | {okS (Gen.checkGeoRegion w e s n)} | {okS (checkGeoRegion w e s n)}"
+  for lon in [(-181 : Rat), -180, 0, 360, 361] do
+    for lat in [(-91 : Rat), -90, 0, 90, 91] do
+      let m := if (lon > 360 ∨ lon < -180) ∨ (lat > 90 ∨ lat < -90) then "err" else "ok"
+      IO.println s!"geoCoordBad {ratS lon} {ratS lat} | {okS (Gen.geoCoordBad lon lat)} | {m}"
+  for (nn, ne) in [((2 : Nat), (2 : Nat)), (3, 5), (7, 2), (14, 11), (2, 9)] do
+    for px in [false, true] do
+      for r in [(⟨0, 10, -5, 1⟩ : Region), ⟨-1/2, 21/2, -11/2, 3/2⟩, ⟨3, 3, 1, 4⟩] do
+        let g := Gen.shapeToSpacing r.w r.e r.s r.n (nn : Int) (ne : Int) px
+        let m := match shapeToSpacing r (nn, ne) px with | some (a, b) => s!"{ratS a} {ratS b}" | none => "err"
+        IO.println s!"shapeToSpacing {ratS r.w} {ratS r.e} {ratS r.s} {ratS r.n} {nn} {ne} {px} | {ratS g.1} {ratS g.2} | {m}"
+
 def main (args : List String) : IO Unit :=
   match args with
   | ["kernels"] => kernels
-  | ["coords"] => coords
+  | ["coords"] => do coords; coords2
   | _ => IO.println "usage: GenEval kernels|coords"
